@@ -336,6 +336,25 @@ theorem host_routes_yield (env : Env) {n f l : List Char} {v : Value} {g : HostF
       ErrorFlow.outcome env (.cell l) = .ok v :=
   ⟨Routes.var_route hv [], Routes.hostfn_route hf hg, by rw [Routes.cell_route hl, hc]⟩
 
+/-- The same at the level of formula TEXT: two formulas that parse to calls of the same name whose
+    argument expressions yield the same values are reported with the same record by `Parser.parse`. -/
+theorem routed_formulas_agree (env : Env) {s s' : List Char} {name : List Char} {kind : SeqKind}
+    {a a' b b' : List Expr} {av bv : List Value}
+    (hs : parseFormula s = .ok (.call name kind a b)) (hs' : parseFormula s' = .ok (.call name kind a' b'))
+    (ha : Routes.Yield env a av) (ha' : Routes.Yield env a' av)
+    (hb : Routes.Yield env b bv) (hb' : Routes.Yield env b' bv) :
+    (parseTop env s).1 = (parseTop env s').1 := by
+  have hne : ∀ {t : List Char} {x : Expr}, parseFormula t = .ok x → t.isEmpty = false := by
+    intro t x h
+    cases t with
+    | nil =>
+      have h0 : parseFormula [] = .error .syntax := rfl
+      rw [h0] at h
+      cases h
+    | cons => rfl
+  simp only [parseTop, hne hs, hne hs', hs, hs']
+  exact call_sees_argument_values env name kind [] [] ha ha' hb hb'
+
 /-! ### non-vacuity -/
 
 section Examples
